@@ -11,7 +11,7 @@
 """
 import pulp
 
-from core import Result, call, parallel_map
+from core import call_timed, Result, call, parallel_map
 from gen import g1
 from corr.c01 import component_sizes, stems_of
 
@@ -99,9 +99,9 @@ def real(case):
     b = g1.mk_bpseq(seq, pairs)
     cap = Capture()
     out = {}
-    out["spy"] = call(lambda: b.convert_to_dot_bracket(cap).structure)
+    out["spy"] = call_timed(lambda: b.convert_to_dot_bracket(cap).structure)
     out["form"] = canon_impl(cap.form) if cap.form is not None else None
-    out["opt"] = call(lambda: g1.mk_bpseq(seq, pairs).dot_bracket.structure)
+    out["opt"] = call_timed(lambda: g1.mk_bpseq(seq, pairs).dot_bracket.structure)
     out["fcfs"] = call(lambda: g1.mk_bpseq(seq, pairs).fcfs.structure)
     return out
 
@@ -185,6 +185,9 @@ def run(ctx):
         res.count("maxgroup=%d" % max(sizes or [0]))
         inp = {"seq": seq, "pairs": pairs, "family": tag}
         for k in ("opt", "spy"):
+            if o[k][0] == "slow":
+                res.count("solver-slow:" + k)       # the external solver needed longer than the harness waits: not judged
+                continue
             if o[k][0] != "ok":
                 res.fail("spec", "C02:%s:raises:%s" % (k, o[k][1]), inp, "raised %s" % o[k][1])
                 continue
